@@ -333,6 +333,7 @@ def run(pid, tier, seed, jobs=None, replay=None, quiet=False):
     lines = []
     harness_errors = 0
     new_viol = 0
+    known_seen = []
     for sig in sorted(by_sig):
         v = by_sig[sig][0]
         if sig.startswith('harness/'):
@@ -380,6 +381,7 @@ def run(pid, tier, seed, jobs=None, replay=None, quiet=False):
         if sig in open_sigs:
             lines.append(f"KNOWN-FINDING: property={pid} {open_sigs[sig]['what']} "
                          f"[{sig}; {total.viol_count[sig]} cases]")
+            known_seen.append({'signature': sig, 'cases': total.viol_count[sig], 'what': open_sigs[sig]['what']})
             continue
         new_viol += 1
         path = write_replay(pid, sig, 0, v, seed, tier)
@@ -411,6 +413,7 @@ def run(pid, tier, seed, jobs=None, replay=None, quiet=False):
         'property_id': pid, 'tier': tier, 'seed': seed, 'level': chk.level,
         'coverage': cov, 'assumptions': list(chk.assumptions),
         'wall_s': round(wall, 3), 'violations': new_viol,
+        'known_findings_seen': known_seen,          # confirmed violations listed as open in /verif/known_findings.json
     }
     evdir = os.environ.get('VERIF_EVIDENCE_DIR') or os.path.join(VERIF, 'evidence')
     os.makedirs(evdir, exist_ok=True)
